@@ -170,3 +170,18 @@ func vs_floatOK(s string) bool { _, err := strconv.ParseFloat(s, 64); return err
 func vs_float(s string) float64 { f, _ := strconv.ParseFloat(s, 64); return f }
 func vs_boolOK(s string) bool   { _, err := strconv.ParseBool(s); return err == nil }
 func vs_bool(s string) bool     { b, _ := strconv.ParseBool(s); return b }
+
+// ---- sectioned parser state (what its constructors establish) ----
+
+// vs_commentsOK: go/parser never stores nil comments in a comment group.
+func vs_commentsOK(doc *ast.CommentGroup) bool {
+	return doc == nil || vs_all(func(i int) bool { return 0 <= i && i < len(doc.List) ==> doc.List[i] != nil })
+}
+
+// vs_taggersOK: every tag parser the sectioned parser knows, has selected or has matched carries
+// its value parser (newSingleLineTagParser / newMultiLineTagParser always set it).
+func vs_taggersOK(st *sectionedParser) bool {
+	return vs_all(func(i int) bool { return 0 <= i && i < len(st.taggers) ==> st.taggers[i].Parser != nil }) &&
+		(st.currentTagger != nil ==> st.currentTagger.Parser != nil) &&
+		vs_all(func(k string) bool { return vs_has(st.matched, k) ==> st.matched[k].Parser != nil })
+}
